@@ -10,7 +10,7 @@ Driver for C06 and C12 (one module, the batch model of `Model/Batch.lean`):
           | table <n> (x<compact query text> (ok <json> | err <Kind> <json>))…
           | usplit x<key> | ufail x<marker> | ubreak x<key>      (the harness's user-defined plugins)
   cli <selfPar> <env: n (x<file> open write)…> <runCfg: n | s json> <fmt> <plugins>
-      <chunksize: n | s int> <newline_delimited 0|1> <config: missing | unbuildable | good>
+      <chunksize: n | s int> <newline_delimited 0|1> <config: unreadable | unbuildable | good>
       <query file: missing | dir | file <doc: n | s json> <n lines: x | t json …>> <respond>
         (the real `command_line_runner`; the application persists responses and has a JSON file sink)
         -> `panic` | `diverges` | (`ok` | `err <Kind>`) <runs> (<k> <k responses, sorted>… <lines reported as unparsable>)…
@@ -250,7 +250,7 @@ def case : P String := do
     let nd ← bool
     let cfgTok ← next
     let cfg ← match cfgTok with
-      | "missing" => pure Cli.ConfigFile.missing
+      | "unreadable" => pure Cli.ConfigFile.unreadable
       | "unbuildable" => pure Cli.ConfigFile.unbuildable
       | "good" => pure Cli.ConfigFile.good
       | _ => failure
